@@ -1,0 +1,14 @@
+//go:build verif
+
+// Contracts for gvc (/verif). Comment-only: this file adds no declarations.
+
+package vals
+
+//@ func adjustAndCheckIndex
+//@   props C13
+//@   results r err
+//@   pure
+//@   requires 0 <= n && n < MaxInt
+//@   ensures (err == nil) == (-n <= i && (includeN ? i <= n : i < n))
+//@   ensures err == nil ==> r == (i < 0 ? i + n : i)
+//@   ensures err != nil ==> r == 0
